@@ -265,7 +265,10 @@ def VState.step (m : VState) (st : IStep) : VState :=
     | .conc tasks =>
       -- several requests handled at once: every connection folds what it was sent, in the order it was sent it
       let conns := ((st.ds.map fun (d : Delivery) => d.1) ++ tasks.map Prod.fst).eraseDups
-      conns.foldl (fun (m : VState) (k : Nat) =>
+      -- a connection that goes away within the block (task type 4294967295) holds no view any more
+      let gone := tasks.filterMap fun (t : Nat × Option Req) => match t.2 with | some (.unknown 4294967295) => some t.1 | _ => none
+      let m := gone.foldl (fun (m : VState) (k : Nat) => m.drop k) m
+      (conns.filter fun k => !gone.contains k).foldl (fun (m : VState) (k : Nat) =>
         let inbox := inboxOf k st.ds
         let mine := (tasks.find? fun (t : Nat × Option Req) => t.1 == k).bind Prod.snd
         match joinedAs inbox, handedState inbox with
